@@ -12,7 +12,9 @@ def gen(rng, tier):
         kind = rng.choice(["legal", "legal", "sstable", "sstable", "order", "parking", "parking", "count"])
         c = {"kind": kind, "s": rng.randrange(1 << 30)}
         if kind in ("legal", "sstable", "order", "count"):
-            G, fam = common.random_connected_graph(rng, 2, 5 if kind != "count" else 4); n = G["n"]; q = rng.randrange(n); M = common.matrix(G)
+            G, fam = common.random_connected_graph(rng, 2, 5 if kind != "count" else 4)
+            if rng.random() < 0.15: G = common.add_isolated(rng, G, 1)        # disconnected: a vertex no edge leaves (every set of such vertices is legal to fire)
+            n = G["n"]; q = rng.randrange(n); M = common.matrix(G)
             if kind == "count" and max(sum(r) for r in M) > 6: kind = c["kind"] = "sstable"
             D = [rng.randint(0, max(1, sum(M[v]))) if rng.random() < 0.85 else rng.randint(-2, sum(M[v]) + 2) for v in range(n)]
             if rng.random() < 0.5: D = [0 if rng.random() < 0.4 else x for x in D]
